@@ -10,7 +10,7 @@
    over the definitions of Model/Discrete.v that are extracted and run against /repo
    (Model/DiscreteO.v is a proof device: C12_otree_is_model ties it to Model/Discrete.v).
    law / prob: the finite-distribution semantics of Base/Samp.v. *)
-From EoNV Require Import Prelude Samp Graph Discrete DiscreteP DiscreteO DiscreteOP DiscreteSISO DeferredP DeferredKP DiscreteLawP DiscreteLawUP FinalSizeP PercLawP SISLawP.
+From EoNV Require Import Prelude Samp Graph Discrete DiscreteP DiscreteO DiscreteOP DiscreteSISO DeferredP DeferredKP DiscreteLawP DiscreteLawUP FinalSizeP PercLawP SISLawP SampP LosslessP DiscreteLawFullP.
 From Coq Require Import Permutation.
 
 (* ---- the law of the whole run, return_full_data = False ----
@@ -206,6 +206,52 @@ Theorem C12_perc_basic_rows_law : forall g p ord1 ord2 i0 r0o tmin tmax fuel1 fu
 Proof. exact perc_basic_rows_law. Qed.
 Print Assumptions C12_perc_basic_rows_law.
 
+(* ---- total mass, both return modes ----  A program made of Ret / Fail / Flip / Unif only with no
+   reachable failure has total mass 1, and an event that is constant on the reachable results has
+   probability 0 or 1 (C12_prob_leaf_const); discrete_SIR without test_recovery has no reachable
+   failure when fuel > |nodes| (Proofs/DiscreteSafe.v).  Subsumes C12_mass_one. *)
+Theorem C12_mass_one_full : forall g p ord i0 r0o tmin tmax full fuel,
+  wf_inputb g i0 (opt_list r0o) = true -> perm_oracle ord -> (length (gnodes g) < fuel)%nat ->
+  prob (fun _ => true) (law (basic_discrete_SIR g p ord (Some i0) r0o None tmin tmax full fuel)) == 1.
+Proof. exact dsir_mass_one_full. Qed.
+Print Assumptions C12_mass_one_full.
+
+Theorem C12_prob_leaf_const : forall A (f : A -> bool) (b : bool) (m : samp A),
+  simple m -> (forall e, ~ reach_err m e) -> (forall a, reach m a -> f a = b) ->
+  prob f (law m) == if b then 1 else 0.
+Proof. exact prob_leaf_const. Qed.
+Print Assumptions C12_prob_leaf_const.
+
+(* ---- equality in law, ANY return mode, rows AND node histories ----
+   proj o = (so_rows, fd_hist of the full data if any).  For every event F on proj, on a simple
+   undirected graph, any two iteration orders: basic_discrete_SIR and
+   percolation_based_discrete_SIR have the same probability of F.  (The transmission lists are
+   not part of proj: which infector random.choice names is drawn differently by the two
+   functions only in the sense of different draws, their joint law with the rest is not compared.)
+   Subsumes C12_perc_basic_rows_law. *)
+Theorem C12_perc_basic_hist_law : forall g p ord1 ord2 i0 r0o tmin tmax full fuel1 fuel2
+    (F : list row * option (list (node * history)) -> bool),
+  wf_inputb g i0 (opt_list r0o) = true -> arcs_nodupb g = true -> sym_graphb g = true ->
+  perm_oracle ord1 -> perm_oracle ord2 ->
+  (length (gnodes g) < fuel1)%nat -> (length (gnodes g) < fuel2)%nat ->
+  prob (fun o => F (proj o))
+       (law (basic_discrete_SIR g p ord1 (Some i0) r0o None tmin tmax full fuel1)) ==
+  prob (fun o => F (proj o))
+       (law (percolation_based_discrete_SIR g p ord2 (Some i0) r0o None tmin tmax full fuel2)).
+Proof. exact perc_basic_hist_law. Qed.
+Print Assumptions C12_perc_basic_hist_law.
+
+(* with a table rule every reachable result of the run has the rows and node histories of the
+   deterministic run, whatever random.choice returns *)
+Theorem C12_run_proj : forall g tb R pick ord tmin tmax full i0 r0,
+  (forall u v a, r_test R u v a = Ret (tb u v)) ->
+  forall fuel k t s1 s2 out1 out2, core s1 = core s2 ->
+  reach (dloop g R None ord tmin tmax full i0 r0 fuel k t s1) out1 ->
+  dloop g (det_rules (ttb tb) pick) None ord tmin tmax full i0 r0 fuel k t s2 = Ret out2 ->
+  proj out1 = proj out2.
+Proof. exact run_proj. Qed.
+Print Assumptions C12_run_proj.
+
 (* ---- basic_discrete_SIS: one coin per (step, arc) ----
    In the SIS simulator a contact can be tested again at a later step: the coins are indexed by
    (step k, u, v).  The run of the model makes at most `fuel` steps (beyond, both sides fail with
@@ -339,3 +385,17 @@ Example C12law_ex_sis :
   L == Rr /\ 0 < L /\ L < 1.
 Proof. split; [vm_compute; reflexivity|]. split; [vm_compute; reflexivity|]. cbv zeta. repeat split; vm_compute; reflexivity. Qed.
 Print Assumptions C12law_ex_sis.
+
+(* full data on the triangle, p = 1/2: total mass 1; the event "node 2 is recorded infected at time 1"
+   (an event on the node histories) has the same probability under both simulators *)
+Example C12law_ex_full_perc :
+  let ev (x : list row * option (list (node * history))) :=
+    match snd x with
+    | Some hs => existsb (fun uh => N.eqb (fst uh) 2 && existsb (fun e => Qeq_bool (fst e) 1 && N.eqb (snd e) 1) (snd uh)) hs
+    | None => false end in
+  let B := law (basic_discrete_SIR tri (1 # 2) lx_ord (Some [0%N]) None None 0 None true 4) in
+  let P := law (percolation_based_discrete_SIR tri (1 # 2) (fun _ l => l) (Some [0%N]) None None 0 None true 4) in
+  prob (fun _ => true) B == 1 /\ prob (fun _ => true) P == 1 /\
+  prob (fun o => ev (proj o)) B == 1 # 2 /\ prob (fun o => ev (proj o)) P == 1 # 2.
+Proof. cbv zeta. repeat split; vm_compute; reflexivity. Qed.
+Print Assumptions C12law_ex_full_perc.
